@@ -59,6 +59,17 @@ def run(chk):
 
 # ------------------------------------------------------------------ helpers
 
+def bad_answer(res):
+    """Anything a client cannot use as the answer of a call: HTTP error,
+    escaped exception, 'bad-content-length' (declared length != body bytes),
+    'malformed-xml', 'none' (nothing was sent), 'never-completes', ..."""
+    return res is None or res[0] not in ('value', 'fault')
+
+
+BAD_KIND = ('call with arguments of the documented types did not produce a value or a fault '
+            '(HTTP 500 / exception / wrong Content-Length / malformed XML / no response / response that never completes)')
+
+
 def xml_safe(s):
     return isinstance(s, str) and all(
         (ord(ch) >= 32 or ch in '\t\n') and not (0xD800 <= ord(ch) <= 0xDFFF) and ch not in u'\ufffe\uffff'
@@ -237,7 +248,10 @@ def explore_names(chk, pool, facts, cases, meta):
                     res2, _, ch2, re2 = observe(pool, 0, mood, name, params, 'xml')
                     xml_checked += 1
                     r1 = ('http', 500) if res[0] == 'exception' else (res[0], norm(res[1]))
-                    if (r1, changed, reached) != ((res2[0], norm(res2[1])), ch2, re2):
+                    if bad_answer(res2):
+                        chk.violation({'kind': BAD_KIND, 'method_name': name, 'params': list(params), 'mood': mood,
+                                       'path': 'full XML', 'xml': repr(res2), 'direct': repr(res)})
+                    elif (r1, changed, reached) != ((res2[0], norm(res2[1])), ch2, re2):
                         chk.violation({'kind': 'XML path and handler dispatch disagree', 'method_name': name,
                                        'params': list(params), 'mood': mood, 'direct': repr(res), 'xml': repr(res2)})
                 # the multicall path resolves like traverse on its root (except the recursion name)
@@ -247,7 +261,11 @@ def explore_names(chk, pool, facts, cases, meta):
                                                     ([{'methodName': name, 'params': list(params)}],), 'xml')
                         el = _element(res3)
                         exp = ('fault', 30) if res[0] == 'exception' else res
-                        if el is None or el[0] != exp[0] or (el[0] == 'fault' and el[1] != exp[1]):
+                        if bad_answer(res3):
+                            chk.violation({'kind': BAD_KIND, 'method_name': 'system.multicall',
+                                           'params': repr([{'methodName': name, 'params': list(params)}]), 'mood': mood,
+                                           'xml': repr(res3)})
+                        elif el is None or el[0] != exp[0] or (el[0] == 'fault' and el[1] != exp[1]):
                             chk.violation({'kind': 'multicall element differs from traverse on the multicall root',
                                            'method_name': name, 'mood': mood, 'multicall': repr(res3), 'traverse': repr(res)})
     chk.dist('names:xml-path-checked', xml_checked)
@@ -272,7 +290,9 @@ NAME_POOL = ['g1:p1', 'g1:p2', 'g2:q1', 'solo', 'solo:solo', 'g1:*', 'g2:*', 'so
 SIGNAL_POOL = ['HUP', 'TERM', 'KILL', 'USR1', 'SIGHUP', 'sighup', 'hup', '1', '9', '15', '0', '-1', '64', '65',
                '99999999999', 'bogus', '', '1.5', ' 9', '9 ', u'\u0661', 'SIGRTMIN', 'CHLD', 'STOP', '0x9']
 INT_POOL = [0, 1, -1, 2, 5, 13, 14, 100, -5, 2 ** 31 - 1, -2 ** 31, 2 ** 31 - 2, -2 ** 31 + 1, 65536]
-VALID_NAMES = ['g1:p1', 'g1:p2', 'g2:q1', 'solo', 'solo:solo', 'g1:*', 'g2:*', 'g1', 'g2', 'newgrp']
+GRU, PRO, DIE = u'gr\u00fc', u'pr\u00f6', u'di\u00e9'       # non-ASCII group / process names of layouts 5 and 6
+VALID_NAMES = ['g1:p1', 'g1:p2', 'g2:q1', 'solo', 'solo:solo', 'g1:*', 'g2:*', 'g1', 'g2', 'newgrp',
+               GRU + ':' + PRO, GRU + ':' + DIE, GRU + ':*', GRU]
 VALID_SIGNALS = ['HUP', 'TERM', 'USR1', '1', '15', 'SIGKILL']
 
 
@@ -305,6 +325,32 @@ CORPUS = [
     ('system.multicall', ([{'methodName': 'supervisor.getState', 'params': []},
                            {'methodName': 'supervisor.startProcess', 'params': ['g1:p2']},
                            {'methodName': 'nope', 'params': []}],)),
+    # non-ASCII text in the answer, immediate path: fault strings carrying the name, info structs, UTF-8 log text
+    ('supervisor.getProcessInfo', (GRU + ':' + PRO,)), ('supervisor.getProcessInfo', (u'n\u00f6pe:\u65e5\u672c',)),
+    ('supervisor.startProcess', (u'n\u00f6pe',)), ('supervisor.stopProcess', (u'n\u00f6pe', False)),
+    ('supervisor.addProcessGroup', (GRU,)), ('supervisor.addProcessGroup', (u'n\u00f6pe',)),
+    ('supervisor.removeProcessGroup', (GRU,)), ('supervisor.removeProcessGroup', (u'n\u00f6pe',)),
+    ('supervisor.startProcess', (GRU + ':' + PRO, False)), ('supervisor.stopProcess', (GRU + ':' + PRO, False)),
+    ('supervisor.signalProcess', (GRU + ':' + PRO, u'B\u00d6GUS')), ('supervisor.signalProcessGroup', (GRU, 'HUP')),
+    ('supervisor.signalProcess', (GRU + ':*', 'HUP')),
+    ('supervisor.clearProcessLogs', (GRU + ':' + DIE,)), ('supervisor.sendProcessStdin', (GRU + ':' + PRO, u'\u00e9')),
+    ('supervisor.readLog', (0, 0)), ('supervisor.readLog', (-30, 0)), ('supervisor.readProcessStdoutLog', ('g1:p1', 0, 0)),
+    ('supervisor.readProcessStdoutLog', (GRU + ':' + PRO, 0, 0)), ('supervisor.tailProcessStdoutLog', (GRU + ':' + PRO, 0, 100)),
+    ('system.methodHelp', (u'supervisor.n\u00f6pe',)),
+    # ... deferred path: result arrays with the names, faults raised inside the callback, multicall mixing them
+    ('supervisor.startProcess', (GRU + ':' + PRO,)), ('supervisor.startProcess', (GRU + ':' + PRO, True)),
+    ('supervisor.startProcess', (GRU + ':' + DIE, True)),          # dies while starting: ABNORMAL_TERMINATION from onwait
+    ('supervisor.startProcess', (GRU + ':*',)), ('supervisor.stopProcess', (GRU + ':' + PRO,)),
+    ('supervisor.stopProcess', (GRU + ':' + PRO, True)), ('supervisor.stopProcess', (GRU + ':*',)),
+    ('supervisor.startProcessGroup', (GRU,)), ('supervisor.startProcessGroup', (GRU, False)),
+    ('supervisor.stopProcessGroup', (GRU,)), ('supervisor.stopProcessGroup', (GRU, False)),
+    ('supervisor.startProcessGroup', (u'n\u00f6pe',)),
+    ('system.multicall', ([{'methodName': 'supervisor.startProcess', 'params': [GRU + ':' + DIE]},
+                           {'methodName': 'supervisor.getProcessInfo', 'params': [u'n\u00f6pe']},
+                           {'methodName': 'supervisor.stopProcessGroup', 'params': [GRU]},
+                           {'methodName': 'supervisor.getAllProcessInfo', 'params': []}],)),
+    ('system.multicall', ([{'methodName': 'supervisor.getProcessInfo', 'params': [u'n\u00f6pe']},
+                           {'methodName': 'supervisor.readLog', 'params': [0, 0]}],)),
 ]
 
 
@@ -425,8 +471,7 @@ def explore_args(chk, pool, facts, cases, meta, counters):
                         counters['utf8'] = counters.get('utf8', 0) + 1
                         continue
                     if res2 is not None and res2[0] not in ('value', 'fault'):
-                        chk.violation(dict(rec, kind='call with arguments of the documented types did not produce a value or a fault '
-                                                     '(HTTP 500 / exception / response that never completes)'))
+                        chk.violation(dict(rec, kind=BAD_KIND))
                         continue
                     if res2 is not None:
                         r1 = ('http', 500) if res[0] == 'exception' else (res[0], norm(res[1]))
@@ -443,11 +488,13 @@ def explore_args(chk, pool, facts, cases, meta, counters):
                         if res[1] not in table:
                             chk.violation(dict(rec, kind='fault code is not a documented constant'))
                     else:
-                        chk.violation(dict(rec, kind='call with arguments of the documented types did not produce a value or a fault '
-                                                     '(HTTP 500 / exception / response that never completes)'))
+                        chk.violation(dict(rec, kind=BAD_KIND))
                         continue
                     if polls:
                         counters['deferred'] = counters.get('deferred', 0) + 1
+                    if res2 is not None and any(ord(ch) > 127 for ch in repr(res[1]) + (repr(params) if res[0] == 'fault' else '')):
+                        k = 'non-ascii-answer:%s:%s' % ('deferred' if polls else 'immediate', res[0])
+                        counters[k] = counters.get(k, 0) + 1
                     # mood guard, independent of the model
                     if mood < 1 and guard[method] != 'GNone' and \
                             (res[0] != 'fault' or res[1] not in (Faults.SHUTDOWN_STATE, Faults.INCORRECT_PARAMETERS) or changed):
@@ -480,6 +527,12 @@ def gen_calls(rng, listed):
         ('supervisor.tailProcessStdoutLog', ['g1:p1', 0, 5]),
         ('system.listMethods', []), ('system.methodHelp', ['supervisor.getState']),
         ('system.methodSignature', ['nope']),
+        # non-ASCII names in values and fault strings, immediate and deferred
+        ('supervisor.startProcess', [GRU + ':' + PRO]), ('supervisor.startProcess', [GRU + ':' + DIE]),
+        ('supervisor.stopProcess', [GRU + ':' + PRO]), ('supervisor.startProcessGroup', [GRU]),
+        ('supervisor.stopProcessGroup', [GRU]), ('supervisor.getProcessInfo', [GRU + ':' + PRO]),
+        ('supervisor.getProcessInfo', [u'n\u00f6pe']), ('supervisor.readLog', [0, 0]),
+        ('supervisor.getAllConfigInfo', []), ('supervisor.signalProcess', [GRU + ':' + PRO, u'B\u00d6GUS']),
         # refused / faulting
         ('supervisor._update', ['x']), ('nope.nope', []), ('supervisor', []), ('supervisor.getState.__call__', []),
         ('supervisor.getState', ['extra']), ('supervisor.startProcess', []), ('', []), ('__class__.__init__', []),
@@ -526,8 +579,7 @@ def explore_multicall(chk, logdir, ref, cases, meta, counters):
             else:
                 exp, pk = w1.call_xml(name, params)
                 if exp[0] not in ('value', 'fault'):
-                    chk.violation({'kind': 'call with arguments of the documented types did not produce a value or a fault '
-                                           '(HTTP 500 / exception / response that never completes)',
+                    chk.violation({'kind': BAD_KIND,
                                    'method_name': name, 'params': repr(params), 'mood': mood, 'variant': variant,
                                    'answer': repr(exp), 'earlier_calls_in_this_world': [[n, p] for n, p in calls[:len(seq)]]})
                     exp = ('fault', Faults.FAILED)      # what a multicall element makes of a crash
@@ -552,6 +604,9 @@ def explore_multicall(chk, logdir, ref, cases, meta, counters):
         chk.dist('multicall:len=%d' % len(calls))
         if any(pk for pk, _ in script):
             chk.dist('multicall:with-deferred')
+        if bad_answer(res):
+            chk.violation(dict(rec, kind=BAD_KIND, method_name='system.multicall', params=repr(structs)))
+            continue
         if res[0] != 'value' or not isinstance(res[1], list) or len(res[1]) != len(calls):
             chk.violation(dict(rec, kind='system.multicall did not answer one element per call'))
             continue
@@ -624,7 +679,9 @@ def _run(chk, wd, proved):
     # listMethods through the full XML path is the generated list the theorems speak about
     w = pool.get(0, 1, 1)
     lm, _ = w.call_xml('system.listMethods', ())
-    if lm != ('value', facts['listed']):
+    if bad_answer(lm):
+        chk.violation({'kind': BAD_KIND, 'method_name': 'system.listMethods', 'params': '()', 'xml': repr(lm)})
+    elif lm != ('value', facts['listed']):
         chk.violation({'kind': 'system.listMethods differs from the generated list', 'answer': repr(lm)})
 
     total = 0
@@ -662,7 +719,7 @@ def _run(chk, wd, proved):
                    'process-state layouts x typed argument tuples + wrong arities, each through handler dispatch and full XML path; '
                    'multicall: %d random compositions vs. the same calls issued sequentially; distinct = distinct (answer prefix, '
                    'state-changed) pairs plus distinct (length, polls) multicall shapes'
-                   % (n_split, n_args, 5, n_multi))
+                   % (n_split, n_args, 7, n_multi))
     cov['samples'] = name_meta[5:7] + name_meta[n_split + 10:n_split + 12] + multi_meta[3:5]
     for k, v in sorted(counters.items()):
         chk.dist('outcome:' + k, v)
